@@ -602,6 +602,14 @@ class Gen(object):
         return {"op": "v_setitem", "x": self.ref(x), "i": i,
                 "v": self.value_for(x.dtype, allow_list=False)}
 
+    def g_v_item_mutate(self):
+        cands = [p for p in self.props() if str(p.dtype).endswith("-tuple") and len(p.values)]
+        x = self.pick(cands)
+        if x is None:
+            return None
+        return {"op": "v_item_mutate", "x": self.ref(x), "i": self.rng.randrange(4),
+                "j": self.rng.randrange(3), "v": self.pick(["zz", "9", "q"])}
+
     def g_v_remove(self):
         x = self._prop()
         if x is None:
